@@ -203,9 +203,13 @@ func genSchedule(sc *Scenario, est int64, visits []uint32, st *SiteTable) {
 		sc.PolicyNm = fmt.Sprintf("pct/%d", d)
 	case x < 92:
 		cfg.Policy = simrt.PolRandom
-		cfg.Mean = pick(r, []int64{512, 4096, 1 << 20})
-		// forced preemptions at visited sites, biased to hand-off code
-		var hot, any []uint32
+		// half of the targeted runs park the preempted worker for (practically) the rest of
+		// the others' work: "A stands between two atomic operations while B does everything
+		// it was going to do" is the shape check-then-act windows need
+		cfg.Mean = pick(r, []int64{512, 4096, 1 << 20, 1 << 20})
+		// forced preemptions at visited sites, biased to hand-off code and, among that, to
+		// the statements that perform a synchronisation operation themselves
+		var hot, syncSites, any []uint32
 		for id, v := range visits {
 			if v == 0 {
 				continue
@@ -213,14 +217,21 @@ func genSchedule(sc *Scenario, est int64, visits []uint32, st *SiteTable) {
 			any = append(any, uint32(id))
 			if id < len(st.Hot) && st.Hot[id] {
 				hot = append(hot, uint32(id))
+				if id < len(st.Sites) && st.Sites[id].Kind == "sync" {
+					syncSites = append(syncSites, uint32(id))
+				}
 			}
 		}
 		k := r.between(1, 3)
 		for i := 0; i < k && len(any) > 0; i++ {
 			var s uint32
-			if len(hot) > 0 && r.p(7, 10) {
+			x := r.n(10)
+			switch {
+			case x < 4 && len(syncSites) > 0:
+				s = pick(r, syncSites)
+			case x < 7 && len(hot) > 0:
 				s = pick(r, hot)
-			} else {
+			default:
 				s = pick(r, any)
 			}
 			v := visits[s]
